@@ -5,6 +5,6 @@ cd "$(dirname "$0")"
 mkdir -p .build evidence replays
 export PYTHONWARNINGS=ignore
 /venv/bin/python -W ignore -m harness.translate
-(cd lean && lake build WsVerif driver)
+(cd lean && lake build WsVerif driver enumsp)
 [ -x harness/cdrv/build.sh ] && harness/cdrv/build.sh || true
 /venv/bin/python -W ignore -c "from harness.common import build_ext; print(build_ext())"
